@@ -467,6 +467,7 @@ Nest(nt) ==
                      P("p-arrow-default", {"i:AA+"}, <<"(", "y", "=", "z", ")", "@reta", "=>", "y">>),
                      P("p-cast", {}, <<"@cast", "y">>),
                      P("p-cond-alt", {"i:QC-"}, <<"y", "?", "(", "z", ")", ":", "w", "=>", "w", "@nn">>),
+                     P("p-cond-alt-paren", {"i:QC-"}, <<"(", "y", "?", "(", "z", ")", ":", "w", "=>", "w", "@nn", ")">>),
                      P("p-cond-then", {"i:AA+"}, <<"y", "?", "(", "z", ")", "@retq", "=>", "w", ":", "v">>),
                      P("p-case", {"i:RT-"}, <<"(", ")", "=>", "{", "switch", "(", "y", ")", "{", "case", "(", "z", ")", ":", "w", "@nn", ";", "}", "}">>),
                      P("p-paren-assign", {"i:AA-"}, <<"(", "y", "=", "z", "@nn", ")">>),
